@@ -313,9 +313,12 @@ def run_process_level(ck: Check, sets: List[Tuple[str, Dict[str, str], str]], nv
     jobs = []
     for i, (label, files, main) in enumerate(sets):
         rng = random.Random(f"C18:{ck.seed}:fresh:{i}")
+        tg = targets_for(files)
         jobs.append(dict(kind="fresh", id=i, dir=os.path.join(ck.dir, f"f{i}"), files=files, main=main,
-                         targets=targets_for(files), seeds=[rng.randrange(1, 2 ** 32)],
-                         variants=rng.sample(PATH_VARIANTS, k=min(nvariants, len(PATH_VARIANTS)))))
+                         targets=tg, seeds=[rng.randrange(1, 2 ** 32)],
+                         variants=rng.sample(PATH_VARIANTS, k=min(nvariants, len(PATH_VARIANTS))),
+                         # quick tier: the path/cwd/outdir/-q variants on two of the targets only
+                         variant_targets=(sorted(rng.sample(range(len(tg)), k=2)) if ck.quick else None)))
     res = run_workers("run_det.py", jobs, chunk=1, timeout=900)
     _t(ck, "fresh_processes")
     stats = dict(schemas=len(sets), compilations=0, outputs=0, ok_targets=0, failing_targets=0, inproc_steps=0,
@@ -470,7 +473,7 @@ def run(ck: Check) -> None:
     evaluations = 0
     if not ck.replay_file:
         evaluations += run_tables(ck)
-        nh = ck.n(200, 4000)
+        nh = ck.n(200, 3000)
         for i in range(nh):
             rng = random.Random(f"C18:{ck.seed}:h:{i}")
             hist_items.append((f"gen#{i}", gen_history(rng, disciplined=(i % 5 != 0)), None))
@@ -486,15 +489,15 @@ def run(ck: Check) -> None:
             must = [s for s in repo_sets if s[0].startswith("example/")]
             enc = [s for s in repo_sets if "encoding-cases" in s[0]]
             rest = [s for s in repo_sets if s not in must and s not in enc]
-            repo_sets = must + rng.sample(enc, k=min(6, len(enc))) + rng.sample(rest, k=min(5, len(rest)))
+            repo_sets = must + rng.sample(enc, k=min(5, len(enc))) + rng.sample(rest, k=min(4, len(rest)))
         sets.extend(repo_sets)
-        for i in range(ck.n(10, 160)):
+        for i in range(ck.n(10, 100)):
             r2 = random.Random(f"C18:{ck.seed}:s:{i}")
             params = sg.Params(allow_ext=False) if i % 3 == 0 else (
                 sg.Params(max_depth=4, max_fields=8) if i % 3 == 1 else sg.Params())
             s = sg.Gen(r2, params).schema()
             sets.append((f"gen#{i}", s.texts, s.main))
-    stats = run_process_level(ck, sets, nvariants=ck.n(1, 6), group_size=4, methods=methods) if sets else {}
+    stats = run_process_level(ck, sets, nvariants=ck.n(2, 6), group_size=4, methods=methods) if sets else {}
     evaluations += stats.get("compilations", 0) + stats.get("inproc_steps", 0) + stats.get("audit_compared", 0)
     _t(ck, "process_level")
 
